@@ -116,3 +116,312 @@ def run(ctx):
     want = {f"__{o}__" for o in BIN + CMP + UNARY} | {f"__r{o}__" for o in BIN}
     missing = sorted(want - seen)
     ctx.check("R33.1", f"{V.key}::all arithmetic dunders are bound", not missing, f"missing {missing}", V)
+
+
+# ---------------------------------------------------------------------------------------------------------------- R33.2 / R33.3
+VM = "nifty.re.tree_math.vector_math"
+CM = "nifty.re.custom_map"
+
+
+def _leaf_fn(mod, fn_node, expr):
+    """resolve the per-leaf function expression of a tree_map call: partial(f, ...) / lambda / local or module function"""
+    kw = {}
+    while isinstance(expr, ast.Call) and call_name(expr) == "partial" and expr.args:
+        kw.update({k.arg: src(k.value) for k in expr.keywords})
+        expr = expr.args[0]
+    if isinstance(expr, ast.Name):
+        for st in ast.walk(fn_node):
+            if isinstance(st, ast.FunctionDef) and st.name == expr.id and st is not fn_node:
+                return st, kw
+        fi = mod.functions.get(expr.id)
+        if fi is not None:
+            return fi.node, kw
+    return expr, kw
+
+
+def r33_2(ctx, m):
+    from ..util import cfg_of, known_atoms
+    mod = m.module(VM)
+    ctx.rule("R33.2", "tree reductions equal the flat-array operation: size sums leaf sizes; dot/vdot map the jnp namesake over "
+                      "(a, b) in this order on ravelled leaves and add up from 0 (a vdot leaf function may skip the conjugation only "
+                      "under a realness test of its FIRST operand); sum/min/max/any/all reduce leaves and pairs with the same jnp "
+                      "function; norm composes per-leaf p-norms with the same ord and treats ord=0 (count of non-zeros, which does "
+                      "not compose) by summing counts; conjugate maps conj over the leaves", floor=12)
+
+    def fn(name):
+        fi = mod.functions.get(name)
+        if fi is not None:
+            ctx.saw_func(fi)
+        return fi
+    # ---- size
+    fi = fn("size")
+    if fi is not None:
+        rr = [r for r in walk_no_nested(fi.node) if isinstance(r, ast.Return) and r.value is not None]
+        last = rr[-1].value if rr else None
+        okk = isinstance(last, ast.Call) and call_name(last) == "tree_reduce" and len(last.args) == 3 and src(last.args[0]).endswith("add") \
+            and isinstance(last.args[1], ast.Call) and call_name(last.args[1]) == "tree_map" and src(last.args[1].args[0]) == "_size" \
+            and src(last.args[2]) == "0"
+        ctx.check("R33.2", f"{fi.key}::sum of the leaf sizes", okk, src(last) if last is not None else None, fi)
+    # ---- dot / vdot
+    for name, leafop, conj in (("dot", "dot", False), ("vdot", "vdot", True)):
+        fi = fn(name)
+        if fi is None:
+            ctx.und("R33.2", f"{VM}::{name}", "function missing", mod.relpath)
+            continue
+        a, b = fi.params()[:2]
+        cfg = cfg_of(fi)
+        rd = cfg.reaching_defs(fi.params())
+        rets = [n for n in cfg.nodes if n.kind == "stmt" and isinstance(n.ast, ast.Return)]
+        from ..terms import inline_at
+        key = f"{fi.key}::per-leaf jnp.{leafop} over (a, b), summed from zero"
+        if len(rets) != 1:
+            ctx.und("R33.2", key, f"{len(rets)} returns", fi)
+            continue
+        e = inline_at(cfg, rd, rets[0].id, rets[0].ast.value, depth=2)
+        if not (isinstance(e, ast.Call) and call_name(e) == "tree_reduce" and len(e.args) == 3 and isinstance(e.args[1], ast.Call)
+                and call_name(e.args[1]) == "tree_map"):
+            ctx.und("R33.2", key, f"`{src(e)}` is not tree_reduce(add, tree_map(...), 0)", fi)
+            continue
+        red, tm, init = e.args
+        okk = src(red).split(".")[-1] == "add" and src(init) in ("0.0", "0") and [src(x) for x in tm.args[1:]] == [a, b]
+        ctx.check("R33.2", key + " [reduction]", okk, src(e)[:200], fi)
+        lf, kw = _leaf_fn(mod, fi.node, tm.args[0])
+        lkey = f"{fi.key}::leaf function"
+        if isinstance(lf, ast.Attribute):
+            ctx.check("R33.2", lkey, lf.attr == leafop and src(lf.value) in ("jnp", "jax.numpy", "np"), src(lf), fi)
+        elif isinstance(lf, ast.Lambda) or isinstance(lf, ast.FunctionDef):
+            ps = [x.arg for x in lf.args.args][:2]
+            if isinstance(lf, ast.Lambda):
+                bodies = [(lf.body, [])]
+            else:
+                from ..cfg import CFG
+                c2 = CFG(lf)
+                bodies = [(n.ast.value, known_atoms(c2, n.id)) for n in c2.nodes if n.kind == "stmt" and isinstance(n.ast, ast.Return) and n.ast.value is not None]
+            verdict, det = True, []
+            if len(ps) < 2 or not bodies:
+                verdict = None
+            for body, atoms in bodies:
+                if not (isinstance(body, ast.Call) and call_name(body) in ("dot", "vdot") and len(body.args) >= 2):
+                    verdict = None
+                    det.append(f"`{src(body)}` not a dot/vdot call")
+                    continue
+
+                def strip(x):
+                    while isinstance(x, ast.Call) and call_name(x) in ("_ravel", "ravel") and (x.args or isinstance(x.func, ast.Attribute)):
+                        x = x.args[0] if x.args else x.func.value
+                    return x
+                x0, x1 = strip(body.args[0]), strip(body.args[1])
+                conj0 = isinstance(x0, ast.Call) and call_name(x0) in ("conj", "conjugate", "_conj")
+                if conj0:
+                    x0 = strip(x0.args[0] if x0.args else x0.func.value)
+                if [src(x0), src(x1)] != ps:
+                    verdict = False
+                    det.append(f"`{src(body)}` does not combine ({ps[0]}, {ps[1]}) in this order")
+                    continue
+                conjugates = call_name(body) == "vdot" or conj0
+                if conj and not conjugates:
+                    real_first = any(isinstance(t, ast.Call) and call_name(t) in ("iscomplexobj", "iscomplextype", "iscomplex") and
+                                     src(t.args[0]) in (ps[0], f"{ps[0]}.dtype") and pol is False for t, pol in atoms)
+                    if not real_first:
+                        verdict = False
+                        det.append(f"`{src(body)}` drops the conjugation of `{ps[0]}` without knowing that `{ps[0]}` is real "
+                                   f"(guards: {[('' if p else 'not ') + src(t) for t, p in atoms]})")
+                if not conj and conjugates:
+                    verdict = False
+                    det.append(f"`{src(body)}` conjugates in the non-conjugating product")
+            ctx.check("R33.2", lkey, verdict, "; ".join(det) or None, fi, lf)
+        else:
+            ctx.und("R33.2", lkey, f"leaf function `{src(tm.args[0])}` not resolved", fi)
+    # ---- unary reductions
+    ur = fn("_unary_reduction")
+    if ur is not None:
+        p0 = ur.params()[0]
+        inner = {n.name: n for n in ur.node.body if isinstance(n, ast.FunctionDef)}
+        rr = [r for r in walk_no_nested(ur.node) if isinstance(r, ast.Return)]
+        outer = inner.get(src(rr[0].value)) if len(rr) == 1 else None
+        okk = None
+        if outer is not None:
+            r2 = [r for r in walk_no_nested(outer) if isinstance(r, ast.Return)]
+            v = r2[0].value if len(r2) == 1 else None
+            if isinstance(v, ast.Call) and call_name(v) == "tree_reduce" and len(v.args) == 2 and isinstance(v.args[1], ast.Call) \
+                    and call_name(v.args[1]) == "tree_map" and src(v.args[1].args[1]) == outer.args.args[0].arg:
+                f_pair, f_leaf = inner.get(src(v.args[0])), inner.get(src(v.args[1].args[0]))
+                if f_pair is not None and f_leaf is not None:
+                    bp = [r.value for r in walk_no_nested(f_pair) if isinstance(r, ast.Return)]
+                    bl = [r.value for r in walk_no_nested(f_leaf) if isinstance(r, ast.Return)]
+                    pa_ = [x.arg for x in f_pair.args.args]
+                    okk = len(bp) == 1 and len(bl) == 1 and call_name(bp[0]) == p0 and call_name(bl[0]) == p0 \
+                        and src(bp[0].args[0]).replace(" ", "") in (f"jnp.array([{pa_[0]},{pa_[1]}])", f"jnp.stack([{pa_[0]},{pa_[1]}])") \
+                        and f_leaf.args.args[0].arg in src(bl[0].args[0])
+        ctx.check("R33.2", f"{ur.key}::leaves and pairs are reduced with the same function", okk, None, ur)
+        table = {}
+        for st in mod.tree.body:
+            if isinstance(st, ast.Assign) and isinstance(st.value, ast.Call) and call_name(st.value) == "_unary_reduction" and st.value.args:
+                for t in st.targets:
+                    if isinstance(t, ast.Name):
+                        table[t.id] = src(st.value.args[0])
+                        ctx.check("R33.2", f"{mod.relpath}::{t.id} = _unary_reduction(...)", src(st.value.args[0]) == f"jnp.{t.id}",
+                                  f"bound to {src(st.value.args[0])}", mod.relpath, st)
+    # ---- norm
+    fi = fn("norm")
+    if fi is not None:
+        tr, od = fi.params()[:2]
+        cfg = cfg_of(fi)
+        rets = [n for n in cfg.nodes if n.kind == "stmt" and isinstance(n.ast, ast.Return) and n.ast.value is not None]
+        zero_rets, gen_rets = [], []
+        for n in rets:
+            at = known_atoms(cfg, n.id)
+            z = [pol for t, pol in at if src(t).replace(" ", "") in (f"{od}==0", f"0=={od}")]
+            (zero_rets if (z and z[0]) else gen_rets).append(n)
+        key = f"{fi.key}::ord=0 is handled by summing the per-leaf counts of non-zeros"
+        if not zero_rets:
+            ctx.bad("R33.2", key, "no branch for ord == 0: norm(per-leaf counts, ord=0) counts the leaves that contain a non-zero entry, "
+                                  "not the non-zero entries", fi)
+        else:
+            rd = cfg.reaching_defs(fi.params())
+            from ..terms import inline_at
+            e = inline_at(cfg, rd, zero_rets[0].id, zero_rets[0].ast.value, depth=2)
+            t = src(e)
+            ctx.check("R33.2", key, ("count_nonzero" in t or "!= 0" in t) and "tree_reduce" in t and "add" in t, t[:160], fi)
+        key = f"{fi.key}::p-norms compose: norm(per-leaf norms with the same ord, ord)"
+        okk = None
+        if len(gen_rets) == 1:
+            v = gen_rets[0].ast.value
+            if isinstance(v, ast.Call) and call_name(v) == "norm" and any(k.arg == "ord" and src(k.value) == od for k in v.keywords):
+                tms = [c for c in ast.walk(v) if isinstance(c, ast.Call) and call_name(c) == "tree_map"]
+                if len(tms) == 1:
+                    lf, _ = _leaf_fn(mod, fi.node, tms[0].args[0])
+                    if isinstance(lf, ast.FunctionDef):
+                        inner_norms = [c for c in ast.walk(lf) if isinstance(c, ast.Call) and call_name(c) == "norm"]
+                        okk = bool(inner_norms) and all(any(k.arg == "ord" and src(k.value) == od for k in c.keywords) for c in inner_norms) \
+                            and src(tms[0].args[1]) == tr
+        ctx.check("R33.2", key, okk, None, fi)
+    # ---- conjugate
+    fi = fn("conjugate")
+    cj = fn("_conj")
+    if fi is not None and cj is not None:
+        rr = [r for r in walk_no_nested(fi.node) if isinstance(r, ast.Return)]
+        ctx.check("R33.2", f"{fi.key}::maps the conjugation over the leaves",
+                  len(rr) == 1 and src(rr[0].value) == f"tree_map(_conj, {fi.params()[0]})", src(rr[0].value) if rr else None, fi)
+        r2 = [r for r in walk_no_nested(cj.node) if isinstance(r, ast.Return)]
+        ctx.check("R33.2", f"{cj.key}::conjugates", len(r2) == 1 and all("conj" in src(x) for x in
+                  ([r2[0].value.body, r2[0].value.orelse] if isinstance(r2[0].value, ast.IfExp) else [r2[0].value])), None, cj)
+
+
+def r33_3(ctx, m):
+    from ..util import cfg_of, find_nodes
+    mod = m.module(CM)
+    ctx.rule("R33.3", "sequential maps: mapped inputs are moved from their in-axis to axis 0 and outputs from axis 0 to their "
+                      "out-axis with _moveaxis(array, source, destination) = jnp.moveaxis in this order (a hand-written permutation "
+                      "must normalise negative axes before using them as list positions); every returned leaf is derived from the "
+                      "scan's stacked output (an unmapped output is its first slice), never from an input", floor=5)
+    mv = mod.functions.get("_moveaxis")
+    gs = mod.functions.get("_generic_smap")
+    if mv is None or gs is None:
+        ctx.error(f"{CM}: _moveaxis/_generic_smap missing")
+        return
+    ctx.saw_func(mv)
+    ctx.saw_func(gs)
+    a0, s0, d0 = mv.params()[:3]
+    cfg = cfg_of(mv)
+    rd = cfg.reaching_defs(mv.params())
+    calls = find_nodes(cfg, lambda q: isinstance(q, ast.Call) and call_name(q) == "moveaxis")
+    key = f"{mv.key}::delegates to jnp.moveaxis(array, source, destination)"
+    if calls:
+        ctx.check("R33.3", key, all([src(x) for x in c.args] == [a0, s0, d0] for n, c in calls), "; ".join(src(c) for n, c in calls), mv)
+    # early return only for source == destination
+    for n in cfg.nodes:
+        if n.kind == "stmt" and isinstance(n.ast, ast.Return) and src(n.ast.value) == a0:
+            from ..util import known_atoms
+            at = known_atoms(cfg, n.id)
+            okk = any(pol and src(t).replace(" ", "") in (f"{s0}=={d0}", f"{d0}=={s0}") for t, pol in at)
+            ctx.check("R33.3", f"{mv.key}::returns the array unchanged only if source == destination", okk, None, mv, n.ast)
+    # hand-written permutations: positions must be normalised
+    sinks = []
+    for n, c in find_nodes(cfg, lambda q: isinstance(q, ast.Call) and isinstance(q.func, ast.Attribute) and q.func.attr in ("insert", "pop") and q.args):
+        sinks.append((n, c.args[0], c))
+    for n, c in find_nodes(cfg, lambda q: isinstance(q, ast.Call) and call_name(q) == "range"):
+        for a in c.args:
+            sinks.append((n, a, c))
+    for n, s_ in find_nodes(cfg, lambda q: isinstance(q, ast.Slice)):
+        for a in (s_.lower, s_.upper):
+            if a is not None:
+                sinks.append((n, a, s_))
+    n_perm = 0
+    for n, e, site in sinks:
+        for nm in [x.id for x in ast.walk(e) if isinstance(x, ast.Name) and x.id in (s0, d0)]:
+            n_perm += 1
+            defs = (rd.get(n.id) or {}).get(nm, frozenset())
+            normalised = bool(defs) and all(
+                cfg.nodes[d].kind == "stmt" and isinstance(cfg.nodes[d].ast, (ast.Assign, ast.AugAssign)) and
+                ("% " in src(cfg.nodes[d].ast) or "normalize_axis" in src(cfg.nodes[d].ast) or "canonicalize_axis" in src(cfg.nodes[d].ast))
+                for d in defs)
+            ctx.check("R33.3", f"{mv.key}::`{nm}` is normalised before it is used as a list position", normalised,
+                      f"`{short(site)}` uses `{nm}` (may be negative, as in jax.vmap) with Python list semantics" if not normalised else None, mv, site)
+    if not calls and not n_perm:
+        ctx.und("R33.3", key, "neither jnp.moveaxis nor a recognisable permutation", mv)
+    # call sites in _generic_smap
+    cfg = cfg_of(gs)
+    rd = cfg.reaching_defs(gs.params())
+    sites = find_nodes(cfg, lambda q: isinstance(q, ast.Call) and call_name(q) == "_moveaxis" and len(q.args) == 3)
+    ins = [(n, c) for n, c in sites if src(c.args[2]) == "0"]
+    outs = [(n, c) for n, c in sites if src(c.args[1]) == "0"]
+    ctx.check("R33.3", f"{gs.key}::one input move (axis -> 0) and one output move (0 -> axis)", len(ins) == 1 and len(outs) == 1 and len(sites) == 2,
+              "; ".join(src(c) for n, c in sites), gs)
+
+    def loop_of(n):
+        # the For statement whose body contains the node's statement
+        for f in ast.walk(gs.node):
+            if isinstance(f, ast.For) and any(x is n.ast for b in f.body for x in ast.walk(b)):
+                return f
+        return None
+    scan_y = None
+    for n in cfg.nodes:
+        if n.kind == "stmt" and isinstance(n.ast, ast.Assign) and isinstance(n.ast.value, ast.Call) and src(n.ast.value.func) == "_scan":
+            t = n.ast.targets[0]
+            if isinstance(t, ast.Tuple) and len(t.elts) == 2 and isinstance(t.elts[1], ast.Name):
+                scan_y = t.elts[1].id
+    for (n, c), what, it_role in ((ins[0] if ins else (None, None), "input", "in_axes"), (outs[0] if outs else (None, None), "output", "out_axes")):
+        if n is None:
+            continue
+        lp = loop_of(n)
+        okk = None
+        if lp is not None and isinstance(lp.iter, ast.Call) and call_name(lp.iter) == "zip" and isinstance(lp.target, ast.Tuple) and len(lp.target.elts) == 2:
+            ax, el = [src(x) for x in lp.target.elts]
+            zi = [src(x) for x in lp.iter.args]
+            want_src = "x" if what == "input" else scan_y
+            okk = src(c.args[0]) == el and (src(c.args[1]) if what == "input" else src(c.args[2])) == ax and zi[0] == gs.params()[1 if what == "input" else 2] \
+                and zi[1] == (gs.node.args.vararg.arg if what == "input" and gs.node.args.vararg else want_src)
+        ctx.check("R33.3", f"{gs.key}::{what} leaf is paired with its own entry of {it_role}", okk, src(c), gs, c)
+    # outputs derive from the scan result
+    rets = [n for n in cfg.nodes if n.kind == "stmt" and isinstance(n.ast, ast.Return) and n.ast.value is not None]
+    key = f"{gs.key}::every returned leaf derives from the scan output"
+    if len(rets) != 1 or scan_y is None or not outs:
+        ctx.und("R33.3", key, "return / scan result not identified", gs)
+        return
+    rv = rets[0].ast.value
+    outlist = src(rv.args[1]) if isinstance(rv, ast.Call) and call_name(rv) == "tree_unflatten" and len(rv.args) == 2 else None
+    lp = loop_of(outs[0][0])
+    if outlist is None or lp is None:
+        ctx.und("R33.3", key, "output list not identified", gs)
+        return
+    el = src(lp.target.elts[1])
+    apps = [c for c in ast.walk(gs.node) if isinstance(c, ast.Call) and isinstance(c.func, ast.Attribute) and c.func.attr in ("append", "extend", "insert")
+            and src(c.func.value) == outlist]
+    inputs = {gs.node.args.vararg.arg if gs.node.args.vararg else "x", "unmapped", "mapped"}
+    for c in apps:
+        names = {x.id for x in ast.walk(c.args[-1]) if isinstance(x, ast.Name)}
+        from_out = el in names and any(x is c for b in lp.body for x in ast.walk(b))
+        from_in = sorted(names & inputs)
+        ctx.check("R33.3", f"{gs.key}::{outlist}.append(<{'mapped' if '_moveaxis' in src(c) else 'unmapped'} output>)", from_out and not from_in,
+                  f"`{src(c)}` returns {'an INPUT (' + ', '.join(from_in) + ')' if from_in else 'a value'} that does not derive from the "
+                  f"function's output `{el}`" if not (from_out and not from_in) else src(c), gs, c)
+
+
+_run_c33b = run
+
+
+def run(ctx):  # noqa: F811
+    _run_c33b(ctx)
+    r33_2(ctx, ctx.model)
+    r33_3(ctx, ctx.model)
